@@ -339,7 +339,7 @@ def check_obligations(pid, thorough):
             ob["broken"].append(f"theorem {t} uses axioms {sorted(set(ax) - ALLOWED_AXIOMS)}")
     tie = idx.get("tie")
     if tie:
-        check_tie(pid, tie, ob, modules)
+        check_tie(pid, tie, ob, modules, thorough)
     if thorough and not ob["broken"]:
         rc, out = _run(["lake", "env", "leanchecker"] + modules, cwd=LEAN, timeout=3000)
         ob["leanchecker"] = "ok" if rc == 0 else out[-800:]
@@ -366,7 +366,14 @@ def regenerate_translation():
     return report
 
 
-def check_tie(pid, tie, ob, modules):
+def translator_selftest():
+    """harness/py2lean_selftest.py: the translator's rendering of every supported construct against CPython / numpy"""
+    rc, out = _run(["/venv/bin/python", str(VERIF / "harness" / "py2lean_selftest.py"), "--n", "25"], cwd=VERIF, timeout=900)
+    line = [l for l in out.splitlines() if l.startswith("py2lean self-test")]
+    return rc, (line[-1] if line else out[-300:])
+
+
+def check_tie(pid, tie, ob, modules, thorough=False):
     """Translator tie (DESIGN.md §13): regenerate the Lean translation of /repo's scalar helpers, rebuild the tie module,
     audit the tie theorems.  Anything that no longer checks is a broken obligation of this property."""
     ob["tie"] = {"module": tie["module"], "functions": {}, "theorems": tie["theorems"]}
@@ -428,6 +435,11 @@ def check_tie(pid, tie, ob, modules):
             ob["broken"].append(f"tie theorem {t} uses axioms {sorted(set(ax) - ALLOWED_AXIOMS)}")
     modules.extend(tie_mods)
     modules.append("PyresampleModel.Gen.Src")
+    if thorough:
+        rc, line = translator_selftest()
+        ob["tie"]["translator_selftest"] = line
+        if rc != 0:
+            ob["broken"].append("tie: the translator's self-test against CPython / numpy fails: " + line)
 
 
 def write_replay(pid, seed, k, rec):
